@@ -36,14 +36,14 @@ func (o oneString) GetSymbolType(name string) (ast.NodeType, bool) {
 	return 0, false
 }
 func (o oneString) GetSetSymbolTypes(string) ast.SymbolTypes { return nil }
-func (o oneString) IsSet(name string) (bool, bool)            { return false, name == "s" }
-func (o oneString) EvalBool(string) *bool                     { return nil }
-func (o oneString) EvalString(string) *string                 { return o.val }
-func (o oneString) EvalInt64(string) *int64                   { return nil }
-func (o oneString) EvalFloat64(string) *float64               { return nil }
-func (o oneString) EvalDatetime(string) *time.Time            { return nil }
-func (o oneString) IsNil(string) bool                         { return o.val == nil }
-func (o oneString) OpenSetCursor(string) ast.SetCursor        { return ast.NewEmptyCursor() }
+func (o oneString) IsSet(name string) (bool, bool)           { return false, name == "s" }
+func (o oneString) EvalBool(string) *bool                    { return nil }
+func (o oneString) EvalString(string) *string                { return o.val }
+func (o oneString) EvalInt64(string) *int64                  { return nil }
+func (o oneString) EvalFloat64(string) *float64              { return nil }
+func (o oneString) EvalDatetime(string) *time.Time           { return nil }
+func (o oneString) IsNil(string) bool                        { return o.val == nil }
+func (o oneString) OpenSetCursor(string) ast.SetCursor       { return ast.NewEmptyCursor() }
 func (o oneString) OpenSetCursorForQuery(string, ast.Query) ast.SetCursor {
 	return ast.NewEmptyCursor()
 }
